@@ -590,6 +590,9 @@ func genSetScript(r *common.Rng, thorough bool) (int, string) {
 			steps = append(steps, fmt.Sprintf("x%d.%d", m, rep))
 		}
 	}
+	if r.Chance(1, 60) { // malformed stream
+		steps = append(steps, []string{"p9.0.1", "x.1", "b0.", "d0", "p0.0.0", "zz"}[r.Intn(6)])
+	}
 	steps = append(steps, "X")
 	return nrep, strings.Join(steps, ";")
 }
